@@ -185,6 +185,17 @@ CHECKS["C08"] = dict(
         "averages abstract (deterministic functions of their arguments).",
    ref="§6 C08")
 
+CHECKS["C14"] = dict(
+   technique="contract-based deductive verification, relational: fvm1d.rhs executed symbolically on data and on the data "
+             "shifted by one cell, uniform periodic mesh through its contract (C20), numflux through its contract; z3",
+   text="Proof (1-D) for all data, symbolic ncell>=6 (five seam cells + generic interior cell) and ncell=1..5, every model and "
+        "reconstruction family (quick tier: extrapol1/2/k and MUSCL minmod/vanleer; thorough: all): the residual of the shifted "
+        "data is the shifted residual at every cell, and the per-cell time step is shift-equivariant; hence (lemmas: "
+        "composition of shifts, permutation invariance of the minimum, normal forms of C05-C07) every integrator and the "
+        "driver commute with cyclic shifts. The 2-D part (shifts along x and y) is not covered yet.",
+   note=TB + "; mesh contract (uniform, C20) and flux contract (pointwise function, C01) as hypotheses; 2-D pending.",
+   ref="§6 C14")
+
 NA = {
  "C04": "convergence of a solve at the design order under mesh refinement is a limit statement over a family of meshes "
         "(and an empirical one for Riemann problems; the reference solutions wrap the external aerokit): no pre/postcondition "
